@@ -1369,6 +1369,11 @@ class AnyPayloadDecoder(AbstractSimplePayloadDecoder):
 
             chunk += component
 
+        if not isTagged:
+            # the header of the untagged value went in, so does its
+            # end-of-octets sentinel (consumed by the item decoder)
+            chunk += EOO_SENTINEL
+
         if substrateFun:
             yield chunk  # TODO: Weird
 
